@@ -84,10 +84,19 @@ class ErrGen:
             return [Asg("g", g), Asg("it", App(Id("g"), [])), Core("print", [MCall(Id("it"), "next", [])]),
                     Core("print", [MCall(Id("it"), "next", [])]), Core("print", [MCall(Id("it"), "next", [])])]
         if c < 0.86:
-            # inside an overloaded operator (a nested execution on the same VM)
+            # inside an overloaded operator (a nested execution on the same VM): an arithmetic operator, a comparison
+            # operator the object defines, or one the runtime derives from @== / @< (!=, <=, >, >=)
             v = self.newvar()
-            return [Asg("opf", Fn([Param("rhs")], Block([self.as_stmt(f), Int(1)]))),
-                    Asg("obj", Map([], [], ["@+"], [Id("opf")])), Asg(v, Bin("+", Id("obj"), Int(1))), Core("print", [Id(v)])]
+            which = r.random()
+            if which < 0.45:
+                return [Asg("opf", Fn([Param("rhs")], Block([self.as_stmt(f), Int(1)]))),
+                        Asg("obj", Map([], [], ["@+"], [Id("opf")])), Asg(v, Bin("+", Id("obj"), Int(1))), Core("print", [Id(v)])]
+            keys = r.choice([["@=="], ["@<"], ["@==", "@<"], ["@<", "@=="]])
+            op = r.choice(["==", "!=", "<", "<=", ">", ">="])
+            # the comparison functions fail when they run; which ones run for `op` is the dispatch rule of C17
+            return [Asg("opf", Fn([Param("rhs")], Block([self.as_stmt(f), Bool(True)]))),
+                    Asg("obj", Map(["d"], [Int(1)], keys + ["@type"], [Id("opf") for _ in keys] + [Str("T")])),
+                    Asg(v, Cmp([op], [Id("obj"), Int(1)])), Core("print", [Id(v)])]
         if c < 0.9:
             v = self.newvar()
             return [Asg(v, Map(["a", "b"], [App(Id("t"), [Int(1)]), f]))]
